@@ -190,6 +190,16 @@ func (l *listener) handle(conn net.Conn) {
 		l.logger.Error("handling connection", zap.Error(err))
 	}
 
+	if errors.Is(err, errHijacked) {
+		// the connection now belongs to whoever accepted it from the wrapped listener and may
+		// already be reading and writing it: its byte counters are no longer ours to look at
+		l.logger.Debug("connection handed over",
+			zap.String("remote", conn.RemoteAddr().String()),
+			zap.Duration("duration", duration),
+		)
+		return
+	}
+
 	l.logger.Debug("connection stats",
 		zap.String("remote", cx.RemoteAddr().String()),
 		zap.Uint64("read", cx.bytesRead),
